@@ -105,16 +105,20 @@ theorem inferF_mono (fuel fuel' : Nat) (hle : fuel ≤ fuel') : ∀ (e : Expr) (
     fuel_step h₁ : inferF false fuel Γ e S n with ⟨τ, S₁, n₁⟩ using ih _ _ _ _
     cases ha : asRec (τ.subst S₁) with
     | some row =>
+      rw [ha] at h
       simp only at h ⊢
       cases hl : lookupField l (rowFields row) with
       | some τl =>
+        rw [hl] at h
         exact h
       | none =>
+        rw [hl] at h
         simp only at h ⊢
         fuel_step h₂ : unifySF false fuel S₁ (n₁ + 2) (tRec (.ext l (.var n₁) (.var (n₁ + 1)))) τ
           with ⟨S₂, n₂⟩ using U _ _ _ _ _
         exact h
     | none =>
+      rw [ha] at h
       simp only at h ⊢
       by_cases hv : isVar (τ.subst S₁) = true
       · rw [if_pos hv] at h ⊢
